@@ -252,6 +252,19 @@ func (resp *Resp) next() error {
 		}
 	}
 	hosts = append(hosts, reqHost)
+	if req.DirectURL != nil && len(hosts) > 1 {
+		// a direct url names its host, only the settings and credentials of that host apply
+		direct := make([]*clientHost, 0, len(hosts))
+		for _, h := range hosts {
+			if h.config.Hostname == req.DirectURL.Host {
+				direct = append(direct, h)
+			}
+		}
+		if len(direct) == 0 {
+			direct = append(direct, reqHost)
+		}
+		hosts = direct
+	}
 	sort.Slice(hosts, sortHostsCmp(hosts, reqHost.config.Name))
 	// loop over requests to mirrors and retries
 	curHost := 0
